@@ -51,7 +51,7 @@ func main() {
 			"the unobserved baseline is built on a registrar that only hands out the engine; the same builder code builds every variant, so construction order is identical",
 		},
 		Plan: func(tier string, seed int64) []kit.Batch {
-			nb, n, nreq, nv := 16, 2, 300, 6
+			nb, n, nreq, nv := 16, 3, 300, 6
 			if tier == "thorough" {
 				nb, n, nreq, nv = 48, 24, 1000, 10
 			}
